@@ -44,8 +44,8 @@ def shards(tier, seed):
 
 def gen_case(rng, rkind, pt_sub, sh_sub):
     G = 6
-    nl = int(rng.choice([0, 1, 2, 5, 9, 14, 25]))
-    nr = int(rng.choice([0, 1, 2, 3, 5, 8]))
+    nl = int(rng.choice([0, 1, 5, 9, 14, 25, 40]))
+    nr = int(rng.choice([0, 1, 2, 3, 5, 8, 8]))
     integer_pts = not pt_sub.startswith("float")
     # right shapes: overlapping on purpose
     shapes = []
@@ -53,7 +53,7 @@ def gen_case(rng, rkind, pt_sub, sh_sub):
         r = rng.random()
         if rkind in ("polygon", "multipolygon") and r < 0.5:
             x0, y0 = int(rng.integers(0, G)), int(rng.integers(0, G))
-            w, h = int(rng.integers(1, G)), int(rng.integers(1, G))
+            w, h = int(rng.integers(1, G + 4)), int(rng.integers(1, G + 4))
             ring = gg.flat([(x0, y0), (x0 + w, y0), (x0 + w, y0 + h), (x0, y0 + h), (x0, y0)])
             if rng.random() < 0.5:
                 ring = gg.flat(og.pts_of(ring)[::-1])
